@@ -66,6 +66,10 @@ CHECKS = {
    text="For several workloads on a real leader+follower pair the leader->follower replication stream is cut after every byte offset (file-transfer and live phases, rotation, tiny ring buffer), with the follower's own reconnect logic running on virtual time, plus double cuts on a grid; at leader quiescence the follower's holds must equal the leader's.",
    note="Trusted: instrumenter+runtime+vnet cut semantics (bytes beyond the cut dropped, both ends see the break), default schedule inside handlers.",
    technique="exhaustive fault-position enumeration (connection cut at every stream offset) on multi-node instances of the implementation, convergence oracle"),
+ "C11": dict(level="fault_enumeration", design="4/C11",
+   text="Exhaustive enumeration of acknowledgement fates (delivered / held / late / cut per follower) x follower count x ack mode x interference (duplicate request, unlock, queued request, demotion) x value operation x grant path on real leader+follower clusters; SUCCED only with log write + quorum, otherwise error, hold removed, value restored, queue served.",
+   note="Trusted: instrumenter+runtime+vnet hold/cut semantics; default schedule inside handlers.",
+   technique="exhaustive fault-sequence enumeration on multi-node instances of the implementation"),
 }
 NA_DEFAULT = "check not built yet in this round (planned: see DESIGN.md section 4)"
 
